@@ -332,7 +332,7 @@ func sweepC04(tier string, emit func(*CaseC04)) {
 		if (tier == "quick" && i%3 != 1) || n > 2048 {
 			continue
 		}
-		emit(&CaseC04{Boxes: rowBoxes(n, 6, 4), H: 5, V: 3}) // complete 2x2 blocks merge horizontally only where the vertical pair exists
+		emit(allProcs(&CaseC04{Boxes: rowBoxes(n, 6, 4), H: 5, V: 3})) // complete 2x2 blocks merge horizontally only where the vertical pair exists
 		emit(&CaseC04{Boxes: rowBoxes(n, 6, 4), H: 6, V: 4})
 	}
 	// all subsets of the 8 children of voxel 0/0/0/0/f, f in {-1, 0}
